@@ -484,3 +484,81 @@ def io_write_all(E, w, items):
 
 
 from . import models_env      # noqa: E402,F401
+
+
+@model('IndexMap::last', 'IndexMap::last_mut', 'BTreeMap::last_key_value')
+def _map_last(E, ci, m):
+    es = map_order(E, deref(m))
+    if not es:
+        return none()
+    e = es[-1]
+    return some(Agg('tuple', 0, [Ref(e, 0), Ref(e, 1)]))
+
+
+@model('IndexMap::first', 'IndexMap::first_mut', 'BTreeMap::first_key_value')
+def _map_first(E, ci, m):
+    es = map_order(E, deref(m))
+    if not es:
+        return none()
+    e = es[0]
+    return some(Agg('tuple', 0, [Ref(e, 0), Ref(e, 1)]))
+
+
+@model('IndexMap::get_index', 'IndexMap::get_index_mut')
+def _map_get_index(E, ci, m, i):
+    es = deref(m).entries
+    i = E.concretize(i)
+    if i >= len(es):
+        return none()
+    return some(Agg('tuple', 0, [Ref(es[i], 0), Ref(es[i], 1)]))
+
+
+@model('IndexMap::get_index_of')
+def _map_get_index_of(E, ci, m, k):
+    mv = deref(m)
+    for i, e in enumerate(mv.entries):
+        if E.branch(key_eq(E, e[0], deref(k))):
+            return some(USZ(i))
+    return none()
+
+
+@model('IndexMap::get_full')
+def _map_get_full(E, ci, m, k):
+    mv = deref(m)
+    for i, e in enumerate(mv.entries):
+        if E.branch(key_eq(E, e[0], deref(k))):
+            return some(Agg('tuple', 0, [USZ(i), Ref(e, 0), Ref(e, 1)]))
+    return none()
+
+
+@model('HashMap::retain', 'IndexMap::retain', 'BTreeMap::retain')
+def _map_retain(E, ci, m, f):
+    mv = deref(m)
+    keep = []
+    for e in list(mv.entries):
+        if E.branch(E.call_value(f, [Ref(e, 0), Ref(e, 1)])):
+            keep.append(e)
+    mv.entries = keep
+    return UNIT
+
+
+@model('HashMap::extend', 'IndexMap::extend', 'BTreeMap::extend')
+def _map_extend(E, ci, m, it):
+    mv = deref(m)
+    for x in drain_iter(E, iter_of(E, it)):
+        map_insert(E, mv, x.fields[0], x.fields[1])
+    return UNIT
+
+
+@model('HashMap::clear', 'IndexMap::clear', 'BTreeMap::clear')
+def _map_clear(E, ci, m):
+    deref(m).entries = []
+    return UNIT
+
+
+@model('HashMap::drain', 'IndexMap::drain')
+def _map_drain(E, ci, m, *a):
+    mv = deref(m)
+    es = map_order(E, mv)
+    mv.entries = []
+    return ListIter([Agg('tuple', 0, [e[0], e[1]]) for e in es])
